@@ -7,6 +7,8 @@
       upath arcs u w     undirected path (each step follows an arc forwards or backwards)
       nn                 N.of_nat (complex indices are stored as N in the classes) *)
 From Coq Require Import List NArith ZArith.
+Require mathcomp.algebra.mxalgebra mathcomp.algebra.matrix mathcomp.algebra.rat.
+Require SK.lib.RankBridge SK.proof.C19_Rank.
 From SK Require Import lib.Reach model.C17_Model model.C19_Model proof.C17_Proof proof.C19_Proof proof.C19_Complexes proof.C19_Linkage.
 Import ListNotations.
 
@@ -68,3 +70,39 @@ Theorem C19_deficiency_formula : forall net iso r,
   deficiency s = (Z.of_nat (n_complexes s) - Z.of_nat (n_linkage s) - Z.of_nat (stoich_rank s))%Z.
 Proof. exact deficiency_formula. Qed.
 Print Assumptions C19_deficiency_formula.
+
+(** (4) deficiency = (number of complexes) - (number of linkage classes) - (EXACT rank of the stoichiometric matrix):
+        whenever the rank certificate is accepted by the proved checker, the rank used by the summary is MathComp's rank
+        over the rationals of build_S (the matrix of C17), and the deficiency is n - l - that rank.  (numpy's float rank
+        enters only through the per-run correspondence: it is compared with the certified rank.) *)
+Theorem C19_deficiency : forall (net : list rxn) (iso : list str) (rc : rcert),
+  let m := length (species_order net iso) in
+  let n := length (reaction_order net) in
+  let S := build_S net iso in
+  let F := mathcomp.algebra.rat.rat_fieldType in
+  let rankS := @mathcomp.algebra.mxalgebra.mxrank F m n (SK.lib.RankBridge.toM m n S) in
+  rank_checked m n S rc = true ->
+  let s := compute_summary net iso (rc_r rc) in
+  stoich_rank s = rankS /\
+  deficiency s = (Z.of_nat (n_complexes s) - Z.of_nat (n_linkage s) - Z.of_nat rankS)%Z.
+Proof. exact SK.proof.C19_Rank.deficiency_exact. Qed.
+Print Assumptions C19_deficiency.
+
+(** (5a) for EVERY network: exact rank of S + number of linkage classes <= number of complexes
+         (S = Y * I_a; the class indicator vectors are independent and annihilate the incidence matrix I_a). *)
+Theorem C19_rank_bound : forall (net : list rxn) (iso : list str),
+  let m := length (species_order net iso) in
+  let n := length (reaction_order net) in
+  let F := mathcomp.algebra.rat.rat_fieldType in
+  let rankS := @mathcomp.algebra.mxalgebra.mxrank F m n (SK.lib.RankBridge.toM m n (build_S net iso)) in
+  let s := compute_summary net iso 0 in
+  rankS + n_linkage s <= n_complexes s.
+Proof. exact SK.proof.C19_Rank.rank_bound_le. Qed.
+Print Assumptions C19_rank_bound.
+
+(** (5b) the deficiency is never negative (with the exact, certificate-checked rank). *)
+Theorem C19_nonneg : forall (net : list rxn) (iso : list str) (rc : rcert),
+  rank_checked (length (species_order net iso)) (length (reaction_order net)) (build_S net iso) rc = true ->
+  (0 <= deficiency (compute_summary net iso (rc_r rc)))%Z.
+Proof. exact SK.proof.C19_Rank.deficiency_nonneg. Qed.
+Print Assumptions C19_nonneg.
